@@ -448,7 +448,7 @@ def run_property(prop: str, tier: str, seed: int, only: str | None = None, verbo
         "solver_time_s": round(solver_time, 2),
         "exhaustive": exhaustive,
         "known_findings_reported": len(known_lines),
-        "explanation": meta.get("explanation", ""),
+        "explanation": meta.get("explanation") or meta.get("claim", "bounded symbolic checking of the real code; see DESIGN.md"),
     }
     ev = {
         "property_id": prop,
